@@ -41,12 +41,12 @@ def shards(tier, seed):
     b = bounds(tier, seed)
     out = []
     for n in range(1, b["bw_n"] + 1):
-        nparts = {8: 4, 9: 16, 10: 64}.get(n, 1)
+        nparts = {6: 2, 7: 4, 8: 12, 9: 32, 10: 96}.get(n, 1)
         for part in range(nparts):
             out.append(dict(leg="blockwise", n=n, part=part, nparts=nparts, values_n=b["values_n"], reduce_n=b["reduce_n"]))
     out.append(dict(leg="blockwise-irregular", n=6))
     for n in range(1, b["co_n"] + 1):
-        nparts = {5: 4, 6: 12}.get(n, 1)
+        nparts = {4: 3, 5: 10, 6: 30}.get(n, 1)
         for part in range(nparts):
             out.append(dict(leg="cohorts", n=n, part=part, nparts=nparts, values_n=4))
     out.append(dict(leg="history", n=6))
